@@ -406,7 +406,8 @@ spiftool_split(const spif_charptr_t delim, const spif_charptr_t str)
                 pstr++;
             } else {
                 /* Handle any backslashes that are escaping delimiters or quotes. */
-                if ((*pstr == '\\') && (IS_DELIM(*(pstr + 1)) || IS_QUOTE(*(pstr + 1)))) {
+                if ((*pstr == '\\') && *(pstr + 1)
+                    && (IS_DELIM(*(pstr + 1)) || IS_QUOTE(*(pstr + 1)))) {
                     /* Incrementing pstr here moves us past the backslash so that the line
                        below will copy the next character to the new token, no questions asked. */
                     pstr++;
